@@ -5,7 +5,11 @@ sys.path.insert(0, '/verif'); sys.path.insert(0, '/verif/py')
 import importlib
 from hypothesis import given, settings, seed, HealthCheck, Phase
 mod = importlib.import_module('checks.' + sys.argv[1].lower())
-strat = getattr(mod, sys.argv[2])()
+fn = getattr(mod, sys.argv[2])
+try:
+    strat = fn()
+except TypeError:
+    strat = fn('quick')
 fails = []
 labels = {}
 
